@@ -174,7 +174,12 @@ async fn scenario(sim: Arc<Sim>, unit: Value) -> Obs {
         match *op {
             Op::Arrive(d) => {
                 let admit = matches!(affs[d], Aff::High | Aff::Allowed) || (affs[d] != Aff::Never && limit.map(|m| est.len() < m).unwrap_or(true));
-                let r = tokio::time::timeout(ms(12_000), ds[d].connect(l.local_addr())).await;
+                // odd dialers name the identity they expect to reach, even ones do not
+                let r = if d % 2 == 1 {
+                    tokio::time::timeout(ms(12_000), ds[d].connect_with_peer_id(l.local_addr(), l.peer_id())).await
+                } else {
+                    tokio::time::timeout(ms(12_000), ds[d].connect(l.local_addr())).await
+                };
                 let ok = matches!(r, Ok(Ok(_)));
                 if ok != admit {
                     viol!(if admit { "wrongly-rejected" } else { "wrongly-admitted" }, "{ctx} step {step}: dialer d{d} ({:?}) arrives with {} established: connect {}, the admission rule says {}", affs[d], est.len(), if ok { "succeeded" } else { "failed" }, if admit { "admit" } else { "reject" });
